@@ -89,14 +89,14 @@ def main() -> int:
     if os.path.exists(mj):
         for m in json.load(open(mj)):
             if filt in m["name"]:
-                work.append((m["name"], "replace", m.get("edits", m)))
+                work.append((m["name"] + (f" [{m['tier']}]" if m.get("tier") else ""), "replace", m.get("edits", m), m.get("tier")))
     for pd in sorted(glob.glob(os.path.join(VERIF_DIR, "seeded", f"{pid}*", "patch.diff"))):
         name = "seeded:" + os.path.basename(os.path.dirname(pd))
         if filt in name:
-            work.append((name, "patch", pd))
+            work.append((name, "patch", pd, None))
     bad = 0
     with concurrent.futures.ThreadPoolExecutor(jobs) as ex:
-        futs = [ex.submit(run_one, pid, n, k, p, tier, seed) for n, k, p in work]
+        futs = [ex.submit(run_one, pid, n, k, p, t or tier, seed) for n, k, p, t in work]
         for f in futs:
             name, rc, vio, keyl, dt, tail = f.result()
             status = "CAUGHT" if rc == 1 and vio else ("MISSED" if rc == 0 else f"ERROR rc={rc}")
